@@ -35,3 +35,12 @@ package transport
 //@ ensures result != 0
 //@ ensures result % 2 == ite(a.isDialer, 1, 0)
 //@ ensures a.next >= 1 && a.next % 2 == ite(a.isDialer, 1, 0)
+
+// The allocator's fields are touched nowhere else: the role is written once, by the constructor, and the
+// counter only by the constructor's Store and by Next's Add (no other atomic.Uint64 operation exists in the
+// package), so the invariant Next relies on is the one the constructor established plus Next's own steps.
+//@ fieldwritesonly[C38] StreamIDAllocator.isDialer: NewStreamIDAllocator
+//@ census[C38] (*Uint64).Store in NewStreamIDAllocator
+//@ census[C38] (*Uint64).Add in (*StreamIDAllocator).Next
+//@ census[C38] (*Uint64).Swap in -
+//@ census[C38] (*Uint64).CompareAndSwap in -
